@@ -180,6 +180,13 @@ def decide_cmp(pred, a, b, signs):
                 if flip:
                     s = POS if s == NEG else NEG
                 break
+    if pred in ("eq", "ne") and s not in (ZERO, POS, NEG, NONZERO):
+        # opaque handles and addresses of distinct global objects are pairwise different
+        distinct = signs.get("__distinct") if isinstance(signs, dict) else None
+        if distinct:
+            sy = d.symbols()
+            if len(sy) == 2 and all(x in distinct or x.startswith("@") or x.startswith("handle[") for x in sy) and d.subst({x: Poly.const(0) for x in sy}).is_zero():
+                s = NONZERO
     if pred == "eq":
         if s == ZERO:
             return True
@@ -292,6 +299,8 @@ class Evaluator:
             return Bool(False)
         if re.match(r"^-?\d+\.\d+e[+-]\d+$", tok) or re.match(r"^0x[0-9A-Fa-f]+$", tok):
             return atom("float", tok)
+        if tok.startswith("@") and re.match(r"^@[\w.$]+$", tok):
+            return Poly.sym(tok)              # address of a global object
         if tok in ("undef", "poison"):
             raise Inconclusive("undef/poison operand")
         if tok.startswith("%"):
@@ -302,6 +311,9 @@ class Evaluator:
         m = re.match(r"^(%[\w.]+) = (.*)$", ins)
         dst, rhs = (m.group(1), m.group(2)) if m else (None, ins)
         rhs = re.sub(r"^(tail |musttail |notail )", "", rhs)
+        if "bitcast (" in rhs:
+            # constant expression: the address of a global object viewed as another pointer type
+            rhs = re.sub(r"bitcast \([^()]*? (@[\w.$]+) to [^()]*?\)", r"\1", rhs)
         op = rhs.split()[0]
         if op in ("add", "sub", "mul", "shl", "ashr", "lshr", "sdiv", "udiv", "srem", "urem", "and", "or", "xor"):
             mm = re.match(r"^\w+((?: nsw| nuw| exact)*) (\w+) (.*)$", rhs)
@@ -491,6 +503,11 @@ class Evaluator:
                 stack = env.get("__stack", {})
                 derefs = [stack.get(v) if isinstance(v, Poly) else None for v in vals]
                 self.extcalls.append((callee, vals, derefs))
+                model = getattr(self, "external_model", None)
+                if model is not None:
+                    # effects of the external routine on stack temporaries passed by address (output parameters): [(address, value)]
+                    for ptr, value in model(callee, vals, derefs, len(self.extcalls)) or []:
+                        env.setdefault("__stack", {})[ptr] = value
                 if dst:
                     env[dst] = atom("ext", callee, len(self.extcalls))
                 return None
@@ -509,6 +526,25 @@ class Evaluator:
             if isinstance(v, Poly) and isinstance(p, Poly) and any(sy.startswith("stack") for sy in p.symbols()):
                 env.setdefault("__stack", {})[p] = v
             return None
+        if op == "store" and re.match(r"^store (?:volatile )?[^,]*\* ", rhs):
+            # a pointer value (an opaque handle) stored into a stack temporary
+            mm = re.match(r"^store (?:volatile )?(.+?\*) (\S+), (.+?)\* (\S+?)(?:,.*)?$", rhs)
+            if mm:
+                try:
+                    v, p = self.val(mm.group(2), env), self.val(mm.group(4), env)
+                except Inconclusive:
+                    return None
+                if isinstance(v, Poly) and isinstance(p, Poly) and any(sy.startswith("stack") for sy in p.symbols()):
+                    env.setdefault("__stack", {})[p] = v
+            return None
+        if op == "load":
+            mm = re.match(r"^load (?:volatile )?(.+?), (.+?)\* (\S+?)(?:,.*)?$", rhs)
+            p = self.val(mm.group(3), env)
+            st = env.get("__stack", {})
+            if p in st:
+                env[dst] = st[p]
+                return None
+            raise Inconclusive("load from %r (not a stack temporary written on this path)" % p)
         if op == "store" and not re.match(r"^store (?:volatile )?i64 ", rhs):
             return None      # non-integer data (floating point scalars passed by address): not part of the index algebra
         if op == "store":
